@@ -627,6 +627,16 @@ def run_programs(ck, symidx):
                 continue
         ck.stat(stream, "roundtrip:" + ("ok" if real_ok else "lost") + (":known-class" if known_m else ""))
         if real_ok != model_rt:
+            # the token-level model treats literals as opaque atoms: a loss that the character-level float classes (F11)
+            # explain completely -- equal trees after repairing exactly that class in both -- is theirs
+            used = None
+            if model_rt and "pl2" in a:
+                used = O.explained_by_repairs(pl, O.strip(a["pl2"]), O.features(O.strip(a["pl"], keep_doc=True)))
+            if used:
+                ck.stat(stream, "roundtrip:lost:float-literal-classes-only")
+                for c in used:
+                    ck.disagreement("formatting changes the program (float literal)", case, (lambda cc, c=c: {"float-integral": "F11-float-integral", "float-nonfinite": "F11-float-nonfinite"}[c]))
+                continue
             ck.disagreement("program round trip: model and implementation disagree", dict(case, real_roundtrips=real_ok, model_roundtrips=model_rt, known=known_m), None)
             continue
         if not real_ok:
